@@ -942,6 +942,7 @@ class LDAPServer(LDAPSession):
         self,
         msg: LDAPMessage,
     ) -> int:
+        buffer_length = len(self._outgoing_buffer)
         msg_id = super()._send(msg)
 
         if not isinstance(msg, UnbindRequest):
@@ -949,6 +950,8 @@ class LDAPServer(LDAPSession):
                 if not isinstance(msg, (SearchResultEntry, SearchResultReference)):
                     self._outstanding_requests.remove(msg_id)
             else:
+                # The refused response must not be sent to the peer.
+                del self._outgoing_buffer[buffer_length:]
                 raise LDAPError(f"Message {msg} is a response to an unknown request")
 
         return msg_id
